@@ -309,6 +309,9 @@ class Exec:
                 r = xs[0]
                 for x in xs[1:]:
                     r = (np.add if f == "addseq" else np.multiply)(r, x)
+        elif f == "multimatmul":
+            r = mg.multi_matmul(xs, **kw) if self.be == "mg" else (np.linalg.multi_dot([np.asarray(x) for x in xs]) if len(xs) > 2
+                                                                    else np.matmul(xs[0], xs[1]))
         elif f == "einsum":
             lab = lambda seq: "".join(chr(ord("a") + int(k)) for k in seq)  # noqa: E731
             r = L.einsum(",".join(lab(q) for q in s["subs"]) + "->" + lab(s["out"]), *xs, **kw)
